@@ -153,6 +153,10 @@ func c06PNG(rng *core.RNG, profile []byte, nameLen, level int, placement string,
 			cut = len(stream) - 1
 		}
 		icc.RawStream, icc.State = append([]byte{}, stream[:cut]...), "damaged"
+	case "empty-stream": // the limit of truncation: name, terminator, method, and no compressed byte at all
+		icc.RawStream, icc.State = []byte{}, "damaged"
+	case "one-byte-stream":
+		icc.RawStream, icc.State = append([]byte{}, stream[:1]...), "damaged"
 	case "bad-adler":
 		st := append([]byte{}, stream...)
 		st[len(st)-1] ^= 0x55
@@ -387,7 +391,7 @@ func c06Files(seed int64, thorough bool) []func() (c06File, bool) {
 				}
 			}
 			if n <= 1<<20 {
-				for _, dmg := range []string{"bad-zlib-header", "truncated", "bad-adler"} {
+				for _, dmg := range []string{"bad-zlib-header", "truncated", "bad-adler", "empty-stream", "one-byte-stream"} {
 					dmg := dmg
 					add(func(r *core.RNG) (c06File, bool) {
 						return c06PNG(r, profileBytes(r, n, kind), 5, r.Range(0, 9), "after-IHDR", dmg), true
